@@ -394,6 +394,8 @@ def run_c19(ctx):
         hnum, hdepth = (60, 14) if ctx.quick else (800, 30)
         hb, _ = tlc.run_sim("SimEdit.tla", "SimEdit.cfg", ctx.work, num=hnum, depth=hdepth, seed=ctx.seed + 19)
         mb, _ = tlc.run_sim("SimEdit.tla", "SimMux.cfg", ctx.work, num=hnum // 3, depth=hdepth, seed=ctx.seed + 20)
+        rb, _ = tlc.run_sim("SimEdit.tla", "SimReuse.cfg", ctx.work, num=hnum // 3, depth=13, seed=ctx.seed + 21)
+        mb = mb + rb
         n_hist = 0
         for states in hb + mb:
             s = drv_edit.new_system()
